@@ -218,7 +218,10 @@ Definition flatten_push {B} (nx : push B) : push (list B) :=
 
 Definition fm_init {B} {nx : push B} (s : St nx) : fm_st nx := (None, s).
 
-(* ------------------------------------------------------------------ fanout.rs / unzip.rs *)
+(* ------------------------------------------------------------------ fanout.rs / unzip.rs
+   (as of /repo de9fd2170a9 "finalize each downstream once": a flag per downstream records that
+   its poll_finalize answered Done; such a downstream is not polled again.  The step functions
+   of the code before that commit live in Historic.v, for the historical witnesses only.) *)
 
 Section Two.
   Context {A B : Type} (p0 : push A) (p1 : push B).
@@ -228,33 +231,50 @@ Section Two.
     let (a, s0) := ready p0 (fst s) in
     let (b, s1) := ready p1 (snd s) in
     (a && b, (s0, s1)).
-  Definition both_fin (s : St p0 * St p1) : bool * (St p0 * St p1) :=
-    let (a, s0) := fin p0 (fst s) in
-    let (b, s1) := fin p1 (snd s) in
-    (a && b, (s0, s1)).
+
+  (* Unzip::start_send *)
+  Definition unzip_send (ab : A * B) (s : St p0 * St p1) : option (St p0 * St p1) :=
+    match send p0 (fst ab) (fst s) with
+    | None => None
+    | Some s0 => match send p1 (snd ab) (snd s) with
+                 | None => None
+                 | Some s1 => Some (s0, s1)
+                 end
+    end.
+
+  (* state: (finalized_0, finalized_1), downstream states *)
+  Definition once_st : Type := ((bool * bool) * (St p0 * St p1))%type.
+
+  (* if !finalized_i { finalized_i = push_i.poll_finalize(..).is_done() }; Done iff both *)
+  Definition both_fin (s : once_st) : bool * once_st :=
+    let (a, s0) := if fst (fst s) then (true, fst (snd s)) else fin p0 (fst (snd s)) in
+    let (b, s1) := if snd (fst s) then (true, snd (snd s)) else fin p1 (snd (snd s)) in
+    (a && b, ((a, b), (s0, s1))).
 
   Definition unzip_push : push (A * B) :=
-    mkpush both_ready
-           (fun ab s => match send p0 (fst ab) (fst s) with
-                        | None => None
-                        | Some s0 => match send p1 (snd ab) (snd s) with
-                                     | None => None
-                                     | Some s1 => Some (s0, s1)
-                                     end
-                        end)
+    mkpush (St := once_st)
+           (fun s => let (r, s') := both_ready (snd s) in (r, (fst s, s')))
+           (fun ab s => match unzip_send ab (snd s) with
+                        | Some s' => Some (fst s, s') | None => None end)
            both_fin.
 End Two.
 
+(* Fanout::start_send: item.clone() to push_0, item to push_1 *)
+Definition fanout_send {A} (p0 p1 : push A) (a : A) (s : St p0 * St p1) : option (St p0 * St p1) :=
+  match send p0 a (fst s) with
+  | None => None
+  | Some s0 => match send p1 a (snd s) with
+               | None => None
+               | Some s1 => Some (s0, s1)
+               end
+  end.
+
 Definition fanout_push {A} (p0 p1 : push A) : push A :=
-  mkpush (both_ready p0 p1)
-         (fun a s => match send p0 a (fst s) with
-                     | None => None
-                     | Some s0 => match send p1 a (snd s) with
-                                  | None => None
-                                  | Some s1 => Some (s0, s1)
-                                  end
-                     end)
-         (both_fin p0 p1).
+  mkpush (St := once_st p0 p1)
+         (fun s => let (r, s') := both_ready p0 p1 (snd s) in (r, (fst s, s')))
+         (fun a s => match fanout_send p0 p1 a (snd s) with
+                     | Some s' => Some (fst s, s') | None => None end)
+         (@both_fin _ _ p0 p1).
 
 (* ------------------------------------------------------------------ demux_var.rs *)
 
@@ -269,13 +289,6 @@ Section Demux.
                    let (b, rest') := var_ready rest in
                    (a && b, s' :: rest')
     end.
-  Fixpoint var_fin (l : list (St nx)) : bool * list (St nx) :=
-    match l with
-    | [] => (true, [])
-    | s :: rest => let (a, s') := fin nx s in
-                   let (b, rest') := var_fin rest in
-                   (a && b, s' :: rest')
-    end.
   (* idx == 0 ? push.start_send : rest.start_send(idx - 1); () panics *)
   Fixpoint var_send (idx : nat) (a : A) (l : list (St nx)) : option (list (St nx)) :=
     match l with
@@ -286,57 +299,22 @@ Section Demux.
       | S i => match var_send i a rest with Some rest' => Some (s :: rest') | None => None end
       end
     end.
-
-  Definition demux_push : push (nat * A) :=
-    mkpush var_ready (fun ia l => var_send (fst ia) (snd ia) l) var_fin.
-End Demux.
-
-(* ------------------------------------------------------------------ fanout.rs / unzip.rs / demux_var.rs
-   AFTER the proposed finalize-once fix (fixes/C12_fanout_unzip_finalize_once.diff): a flag per
-   downstream records that its poll_finalize answered Done; such a downstream is not polled
-   again.  The correspondence check selects the variant that matches the source it runs against. *)
-
-Section TwoOnce.
-  Context {A B : Type} (p0 : push A) (p1 : push B).
-  Definition once_st : Type := ((bool * bool) * (St p0 * St p1))%type.
-
-  Definition both_fin_once (s : once_st) : bool * once_st :=
-    let (a, s0) := if fst (fst s) then (true, fst (snd s)) else fin p0 (fst (snd s)) in
-    let (b, s1) := if snd (fst s) then (true, snd (snd s)) else fin p1 (snd (snd s)) in
-    (a && b, ((a, b), (s0, s1))).
-
-  Definition unzip_once_push : push (A * B) :=
-    mkpush (St := once_st)
-           (fun s => let (r, s') := both_ready p0 p1 (snd s) in (r, (fst s, s')))
-           (fun ab s => match send (unzip_push p0 p1) ab (snd s) with
-                        | Some s' => Some (fst s, s') | None => None end)
-           both_fin_once.
-End TwoOnce.
-
-Definition fanout_once_push {A} (p0 p1 : push A) : push A :=
-  mkpush (St := once_st p0 p1)
-         (fun s => let (r, s') := both_ready p0 p1 (snd s) in (r, (fst s, s')))
-         (fun a s => match send (fanout_push p0 p1) a (snd s) with
-                     | Some s' => Some (fst s, s') | None => None end)
-         (@both_fin_once _ _ p0 p1).
-
-Section DemuxOnce.
-  Context {A : Type} (nx : push A).
-  (* DemuxVar.finalized bit mask (the fix tracks the first 64 pushes; the model all of them) *)
-  Fixpoint var_fin_once (fl : list bool) (l : list (St nx)) : bool * (list bool * list (St nx)) :=
+  (* poll_finalize_once with the DemuxVar.finalized bit mask (the code tracks the first 64
+     pushes; the model all of them): a finalized push is not polled again *)
+  Fixpoint var_fin (fl : list bool) (l : list (St nx)) : bool * (list bool * list (St nx)) :=
     match l with
     | [] => (true, ([], []))
     | s :: rest =>
       let (a, s') := if hd false fl then (true, s) else fin nx s in
-      match var_fin_once (tl fl) rest with
+      match var_fin (tl fl) rest with
       | (b, (fl', rest')) => (a && b, (a :: fl', s' :: rest'))
       end
     end.
 
-  Definition demux_once_push : push (nat * A) :=
+  Definition demux_push : push (nat * A) :=
     mkpush (St := (list bool * list (St nx))%type)
-           (fun s => let (r, l') := var_ready nx (snd s) in (r, (fst s, l')))
-           (fun ia s => match var_send nx (fst ia) (snd ia) (snd s) with
+           (fun s => let (r, l') := var_ready (snd s) in (r, (fst s, l')))
+           (fun ia s => match var_send (fst ia) (snd ia) (snd s) with
                         | Some l' => Some (fst s, l') | None => None end)
-           (fun s => var_fin_once (fst s) (snd s)).
-End DemuxOnce.
+           (fun s => var_fin (fst s) (snd s)).
+End Demux.
